@@ -1,5 +1,6 @@
 import AquaVerif.Model.CanopyCover
 import AquaVerif.Proofs.Response
+import AquaVerif.Proofs.PowSq
 /-
 Lemmas about `canopy_cover` (property C05): off-season zeros, the cap of the micro-advection
 adjustment, `CC ≤ CC_NS`, and the range of the actual / potential canopy cover.
@@ -76,20 +77,20 @@ theorem microAdv_le_one (F : Fn α) (c : α) : microAdv F c ≤ 1 := by
 structure PowCubeNonneg (F : Fn α) : Prop where
   pow3_nonneg : ∀ x : α, 0 ≤ x → 0 ≤ F.pow x 3
 
-theorem microAdv_nonneg {F : Fn α} (hP : PowCubeNonneg F) {c : α} (h0 : 0 ≤ c) (h1 : c ≤ 1) :
-    0 ≤ microAdv F c := by
+theorem microAdv_nonneg {F : Fn α} (hS : PowSqLaw F) (hP : PowCubeNonneg F) {c : α} (h0 : 0 ≤ c)
+    (h1 : c ≤ 1) : 0 ≤ microAdv F c := by
   unfold microAdv microAdvPoly
-  simp only []
+  simp only [hS.pow_two]
   have hp := hP.pow3_nonneg c h0
   split_ifs with h
   · exact zero_le_one
   · nlinarith [mul_nonneg h0 (sub_nonneg.mpr h1)]
 
 /-- with the exact cube the capped polynomial is `min 1 (1.72c − c² + 0.3c³)` -/
-theorem microAdv_eq_of_cube {F : Fn α} (hc : ∀ x : α, F.pow x 3 = x * x * x) (c : α) :
-    microAdv F c = min 1 (1.72 * c - c * c + 0.3 * (c * c * c)) := by
+theorem microAdv_eq_of_cube {F : Fn α} (hS : PowSqLaw F) (hc : ∀ x : α, F.pow x 3 = x * x * x)
+    (c : α) : microAdv F c = min 1 (1.72 * c - c * c + 0.3 * (c * c * c)) := by
   unfold microAdv microAdvPoly
-  simp only [hc]
+  simp only [hc, hS.pow_two]
   split_ifs with h
   · exact (min_eq_left h.le).symm
   · exact (min_eq_right (not_lt.mp h)).symm
@@ -114,7 +115,7 @@ theorem ccadj_le_one {F : Fn α} {crop : CcCrop α} {cells : List (Cell α)} {zT
     exact ⟨microAdv_le_one _ _, microAdv_le_one _ _⟩
 
 /-- the adjusted covers are non-negative when the covers are fractions -/
-theorem ccadj_nonneg {F : Fn α} (hP : PowCubeNonneg F) {crop : CcCrop α} {cells : List (Cell α)}
+theorem ccadj_nonneg {F : Fn α} (hS : PowSqLaw F) (hP : PowCubeNonneg F) {crop : CcCrop α} {cells : List (Cell α)}
     {zTop : α} {st out : CcState α} {gdd et0 : α} {gs : Bool}
     (h : canopyCover F crop cells zTop st gdd et0 gs = .ok out) :
     (0 ≤ out.cc → out.cc ≤ 1 → 0 ≤ out.ccAdj) ∧ (0 ≤ out.ccNS → out.ccNS ≤ 1 → 0 ≤ out.ccAdjNS) := by
@@ -124,7 +125,7 @@ theorem ccadj_nonneg {F : Fn α} (hP : PowCubeNonneg F) {crop : CcCrop α} {cell
   · obtain ⟨dr, taw, dt, t, _, rfl⟩ := canopyCover_season h
     obtain ⟨e1, e2⟩ := ccSeason_ccAdj F crop st dr taw et0 dt t
     rw [e1, e2]
-    exact ⟨fun a b => microAdv_nonneg hP a b, fun a b => microAdv_nonneg hP a b⟩
+    exact ⟨fun a b => microAdv_nonneg hS hP a b, fun a b => microAdv_nonneg hS hP a b⟩
 
 /-! ## 3. the actual canopy never exceeds the potential one -/
 
